@@ -72,7 +72,7 @@ def parts_for(pid, tier, only):
                          ["bit kernels and Bitstr range arithmetic with full-width symbolic usize arguments on fixed small values"], "values <= 3 bytes",
                          ["bitstr::{cut_bits, bit_mask, upper_bound_index}", "Bitstr::{read, peek, split_at, seek, substr, to_int, to_uint}", "fmt_flags::FmtFlags"], only))
         c08.TIER = tier
-        P.append(e2_run(pid, tier, [c08], only=only, flavours=("on", "off"),
+        P.append(e2_run(pid, tier, [c08], only=only, flavours=("on",) if tier == "quick" else ("on", "off"),
                         assumptions=["per-word panic freedom: every non-immediate native word the executor can run, from an arbitrary state whose top three cells are arbitrary (any variant, tagged or not, full-width payloads), in both overflow-check flavours",
                                      "the evidence lists the words covered and the words not covered with the reason; the claim is exactly the covered list (the property's quantifier over all source texts and call sequences is not decidable here)",
                                      "Bitstr internals are summarised (E1 covers them); formatting produces opaque strings"],
